@@ -50,4 +50,28 @@ objS == [k \in KS |-> 1]
 actS == [k \in KS |-> 100]
 rawS == {}
 OneConn == {"cA"}
+
+(* --- scenario T: several bus.Client objects on ONE end point, the way bus.NewClientObject builds them (one
+       NewClient per client-hosted object on the connection of the hosting peer): every client counts its
+       message ids from 1, so k1..k4 all carry id 3 and are told apart by ONE field of the reply filter each:
+       k2 by the object, k3 by the service, k4 by the action.  k5 is the second call of k1's client (id 5, same
+       target: told apart from k1 by the id alone).                                                          *)
+KT == {"k1", "k2", "k3", "k4", "k5"}
+KT4 == {"k1", "k2", "k3", "k4"}
+clientT == [k \in KT |-> CASE k = "k2" -> "cl2" [] k = "k3" -> "cl3" [] k = "k4" -> "cl4" [] OTHER -> "cl1"]
+epT == [cl \in {"cl1", "cl2", "cl3", "cl4"} |-> "cA"]
+svcT == [k \in KT |-> IF k = "k3" THEN 2 ELSE 1]
+objT == [k \in KT |-> IF k = "k2" THEN 2 ELSE 1]
+actT == [k \in KT |-> IF k = "k4" THEN 101 ELSE 100]
+(* the pairs of scenario T used by the small configurations *)
+KTobj == {"k1", "k2"}
+KTsvc == {"k1", "k3"}
+KTact == {"k1", "k4"}
+KTid  == {"k1", "k5"}
+KT3   == {"k1", "k2", "k5"}
+ObjsT == {<<1, 1>>, <<1, 2>>, <<2, 1>>}
+rawT == {}
+(* ... with a post that carries the id all of them share *)
+rawT1 == { RF("p1", "cA", "post", 1, 2, 100, 3, "ok") }
+NoDev == {}
 =============================================================================
